@@ -2,7 +2,6 @@
 import random
 
 META = {
-    "disabled": True,
     "level": "model_checking",
     "text": "TLC exhaustively checks a multi-member model of the tECDSA key generation as Executor.Execute runs it (one message-driven "
             "machine per running member with the real state list: ephemeral keys, symmetric keys, TSS rounds 1-3, finalization; the "
